@@ -26,7 +26,7 @@ def _replay_line(b):
                 out.append((clause, dict(detail, scale=sc, offset=off, order=perm)))
             if out:
                 return out
-    for clause, detail in _replay_nondyadic(b):
+    for clause, detail in _replay_nondyadic(b) + _replay_shear_big(b):
         out.append((clause, dict(detail, scale=None, offset=None, order=None)))
     return out
 
@@ -76,6 +76,27 @@ def _replay_nondyadic(b):
                     if cr != 0 and abs(cr) < Fr(1, 10 ** 9):
                         return []
         return [("chain-is-hull", {"mode": mode, "got": got, "expected": exp, "map": "y -> 0.1*y + 0.3"})]
+    return []
+
+
+def _replay_shear_big(b):
+    """lower / upper chains of the same curve under the integer shear (x, y) -> (m x + y, (m-1) x + y), m = 2^27 + 1, stored
+    as an int64 array: determinant 1, so every orientation - hence the chain - is the generator's, but the cross products are
+    differences of numbers beyond 2^53: exact in int64, not resolvable in binary64."""
+    import kneeliverse.convex_hull as ch
+    mode = b["mode"]
+    if mode not in ("lower", "upper"):
+        return []
+    xmax = max(1, max(int(x) for x, _ in b["pts"]))
+    m = min(2 ** 27, 2 ** 30 // xmax) + 1          # coordinates stay below 2^31: the int64 cross products cannot overflow
+    P = np.array([[m * int(x) + int(y), (m - 1) * int(x) + int(y)] for x, y in b["pts"]], dtype=np.int64)
+    fn = ch.graham_scan_lower if mode == "lower" else ch.graham_scan_upper
+    try:
+        got = [int(v) for v in np.asarray(fn(P)).tolist()]
+    except Exception as ex:
+        return [("completes", {"mode": mode, "raised": repr(ex)[:200], "map": "int64 shear (x,y)->(mx+y,(m-1)x+y), m=%d" % m})]
+    if got != list(b["result"]):
+        return [("chain-is-hull", {"mode": mode, "got": got, "expected": list(b["result"]), "map": "int64 shear (x,y)->(mx+y,(m-1)x+y), m=%d" % m})]
     return []
 
 
